@@ -923,8 +923,16 @@ def check_layered(rec, seed, k, i, tier):
     r = gen.rng(seed, 'C14', 'layered', k, i)
     shape = tuple(int(x) for x in r.integers(3, 7, 3))
     gs = gen.grid_spec(r, shape)
-    ms = model_truth(r, shape, case=gen.choice(r, ['isotropic', 'VTI']),
-                     mu=False, eps=False)
+    # conductivities of ordinary earth models (0.002 .. 10 S/m) with lateral
+    # variation in every layer: with the twelve-decade arrays of the other
+    # levels the 1-D responses drop to 1e-20 of their usual size, where the
+    # modeller returns its own numerical noise
+    c0 = float(r.uniform(-2.0, 0.3))
+    ms = {'case': gen.choice(r, ['isotropic', 'VTI']), 'sig_kind': 'earth',
+          'sigx': 10.0**(c0 + r.uniform(-0.7, 0.7, shape)), 'sigy': None,
+          'sigz': None, 'mu_r': None, 'eps_r': None}
+    if ms['case'] == 'VTI':
+        ms['sigz'] = 10.0**(c0 + r.uniform(-0.7, 0.7, shape))
     grid = gen.build_emg3d(gs)
     nodes = [grid.nodes_x, grid.nodes_y, grid.nodes_z]
 
@@ -945,8 +953,19 @@ def check_layered(rec, seed, k, i, tier):
             'grid': gen.summarize_grid(gs)}
     rec.case()
     radii, data = {}, {}
-    for mapping in MAPPINGS:
-        model = make_model(emg3d, grid, ms, mapping, 'construct', r)
+    # conditioning probes: the Conductivity model with sigma (1 +- 1e-13);
+    # what these few-hundred-ulp perturbations do to the data is the
+    # resolution at which 'the same data' can be meant
+    runs = list(MAPPINGS) + ([('probe', 1e-13), ('probe', -1e-13)]
+                             if compute else [])
+    for mapping in runs:
+        if isinstance(mapping, tuple):
+            ms_ = dict(ms, **{kk: ms[kk]*(1 + mapping[1]) for kk in
+                              ('sigx', 'sigz') if ms[kk] is not None})
+            model = make_model(emg3d, grid, ms_, 'Conductivity', 'construct',
+                               r)
+        else:
+            model = make_model(emg3d, grid, ms, mapping, 'construct', r)
         survey = emg3d.surveys.Survey(src, recs, [freq])
         kw = {'gridding_opts': {'TxED-1': {'f-1': grid}}} \
             if gridding == 'dict' else {}
@@ -965,6 +984,8 @@ def check_layered(rec, seed, k, i, tier):
                              f'{e}', dict(case, mapping=mapping))
             return
         rec.event('layered_simulations')
+        if isinstance(mapping, tuple):
+            continue
         radii[mapping] = (lo.get('ellipse') or {}).get('radius')
     r0 = radii['Conductivity']
     rec.event('layered_option_checks')
@@ -983,15 +1004,22 @@ def check_layered(rec, seed, k, i, tier):
         if not np.all(np.isfinite(d0)):
             rec.event('layered_data_nonfinite')
             return
+        probes = [data.pop(k_) for k_ in list(data) if isinstance(k_, tuple)]
+        noise = max(float(np.max(np.abs(p_ - d0))) if np.all(np.isfinite(p_))
+                    else float('nan') for p_ in probes)
+        bound = 1e-9*np.abs(d0) + 50*noise
+        rec.margin('layered_probe_noise_rel', noise/float(np.abs(d0).max()))
         for mapping, d in data.items():
-            q = float(np.max(np.abs(d - d0)/np.abs(d0))) if np.all(
+            q = float(np.max(np.abs(d - d0)/bound)) if np.all(
                 np.isfinite(d)) else float('nan')
-            rec.margin('layered_data_spread', q)
-            if not (q <= 1e-8):
+            rec.margin('layered_data_spread_over_bound', q)
+            if not (q <= 1.0):
                 rec.violation('C14:layered-data-differ-between-mappings',
                               f'layered data of the {mapping} model differ '
                               f'from those of the Conductivity model by '
-                              f'{q:.3e} (relative)', dict(case, mapping=mapping))
+                              f'{q:.3e} x (1e-9 |d| + 50 x the effect of a '
+                              f'1e-13 relative change of sigma)',
+                              dict(case, mapping=mapping))
                 return
     rec.distinct(('layered', ms['case'], method, gridding, compute))
 
